@@ -19,8 +19,14 @@ META = {
     "note": "Trusted: Lean kernel; axioms propext/Quot.sound/Classical.choice. The language-level statement ('continues as "
             "if call/cc had returned v' for arbitrary programs) is the instruction-level theorems plus determinism of the "
             "machine on (stack prefix, registers, heap); it is not stated over a source-level semantics (no CPS definitional "
-            "interpreter with call/cc is proved against the compiler). T05.3 assumes the receiver's frame header is intact at "
-            "RET (stack discipline of compiled code, exercised by lock-step replay, not proved). Liveness of captured "
+            "interpreter with call/cc is proved against the compiler). T05.3's former hypothesis (the receiver's frame header is intact at "
+            "RET) is now a theorem for every code object the bytecode verifier Vm/Verify.lean accepts "
+            "(receiver_frame_header_intact, receiver_return_is_invocation, ret_of_receiver_frame_verified, from WF-stack "
+            "preservation step_preserves), under the explicit hypothesis structure CodeLaws about the generic heap "
+            "(a parameter, not an axiom) and for receiver bodies that do not themselves invoke a continuation before "
+            "returning (Trace); that real compiled code verifies is checked by C04's bytecode-verifier stream, not proved "
+            "for the compiler model. The registers/sp are proved equal to the captured ones; that the stack cells below "
+            "the receiver's frame are unchanged at return time is not separately proved. Liveness of captured "
             "continuations across collections (T05.5) belongs to C03's marker theorems.",
     "technique": "Lean 4 proof (capture/restore lemmas over an abstract heap, any later state) + lock-step replay + scenario oracle with closed-form expectations",
 }
@@ -31,6 +37,10 @@ THEOREMS = [
     "Marwood.Proofs.C05.invoke_restores",
     "Marwood.Proofs.C05.capture_then_invoke",
     "Marwood.Proofs.C05.ret_of_receiver_frame",
+    "Marwood.Vm.step_preserves",
+    "Marwood.Proofs.C05.receiver_frame_header_intact",
+    "Marwood.Proofs.C05.receiver_return_is_invocation",
+    "Marwood.Proofs.C05.ret_of_receiver_frame_verified",
 ]
 
 
